@@ -573,8 +573,7 @@ def _canon_function(fn):
       while i < len(blk):
         st = blk[i]
         # C4
-        if isinstance(st, ast.AnnAssign) and st.value is not None and \
-            st.simple and isinstance(st.target, ast.Name):
+        if isinstance(st, ast.AnnAssign) and st.value is not None:
           new = ast.Assign(targets=[st.target], value=st.value)
           ast.copy_location(new, st)
           blk[i] = st = new
